@@ -46,11 +46,12 @@ func TestC21(t *testing.T) {
 // Part (ii): scripted relay
 
 type c21Step struct {
-	Do    string // opened | reopen | closeopen | send | cancel | ack | ackabs | recvmsg | clear | apprecv | expect-recv
-	ID    string // send / cancel / ack(of) / recvmsg / expect-recv
+	Do    string // opened | reopen | closeopen | send | cancel | ack | ackabs | recvmsg | clear | apprecv | apprecvc | cancelrecv | expect-recv | expect-pending
+	ID    string // send / cancel / ack(of) / recvmsg / expect-recv / expect-pending
 	Delta int64  // ack: seq(ID)+Delta
 	Seq   uint64 // ackabs / clear / recvmsg(q)
-	N     int    // apprecv
+	N     int    // apprecv: number of messages; cancelrecv: index of the receive activity
+	Ref   int    // send / apprecv / apprecvc: which ClientPeerRef (modulo the script's Refs)
 }
 
 func (s c21Step) String() string {
@@ -62,8 +63,14 @@ func (s c21Step) String() string {
 	case "recvmsg":
 		return fmt.Sprintf("recvmsg(%s,#%d)", s.ID, s.Seq)
 	case "apprecv":
-		return fmt.Sprintf("apprecv(%d)", s.N)
-	case "send", "cancel", "expect-recv":
+		return fmt.Sprintf("apprecv(%d,r%d)", s.N, s.Ref)
+	case "apprecvc":
+		return fmt.Sprintf("apprecv-ctx-cancelled(r%d)", s.Ref)
+	case "cancelrecv":
+		return fmt.Sprintf("cancelrecv(#%d)", s.N)
+	case "send":
+		return fmt.Sprintf("send(%s,r%d)", s.ID, s.Ref)
+	case "cancel", "expect-recv", "expect-pending":
 		return fmt.Sprintf("%s(%s)", s.Do, s.ID)
 	}
 	return s.Do
@@ -72,11 +79,15 @@ func (s c21Step) String() string {
 type c21Script struct {
 	Name  string
 	Steps []c21Step
+	Refs  int // ClientPeerRefs the application holds to the partner (0 = 1)
 }
 
 func genC21Scripts(r *vf.Run) []c21Script {
 	var out []c21Script
-	add := func(name string, st ...c21Step) { out = append(out, c21Script{name, st}) }
+	add := func(name string, st ...c21Step) { out = append(out, c21Script{Name: name, Steps: st}) }
+	addR := func(refs int, name string, st ...c21Step) {
+		out = append(out, c21Script{Name: fmt.Sprintf("%s refs=%d", name, refs), Steps: st, Refs: refs})
+	}
 	op := c21Step{Do: "opened"}
 	deltas := []int64{-1, 1, 2, 5, 1 << 40}
 	// T1 wrong ack with nPrior completed sends before
@@ -133,17 +144,58 @@ func genC21Scripts(r *vf.Run) []c21Script {
 	}
 	// T7 two concurrent sends: ack naming the queued (not yet transmitted) one
 	add("T7 ack-for-queued", op, c21Step{Do: "send", ID: "m1"}, c21Step{Do: "send", ID: "m2"}, c21Step{Do: "ackabs", Seq: 2}, c21Step{Do: "ackabs", Seq: 1}, c21Step{Do: "ackabs", Seq: 2})
+	// T8 several ClientPeerRefs on one session: the messages of different refs must be told apart
+	for refs := 2; refs <= 3; refs++ {
+		for warm := 0; warm <= 1; warm++ {
+			var pre []c21Step
+			pre = append(pre, op)
+			for k := 0; k < warm*refs; k++ {
+				id := fmt.Sprintf("w%d", k)
+				pre = append(pre, c21Step{Do: "send", ID: id, Ref: k}, c21Step{Do: "ack", ID: id})
+			}
+			cp := func(st ...c21Step) []c21Step { return append(append([]c21Step(nil), pre...), st...) }
+			// cancelled message acked late while the next one (other ref) is outstanding
+			addR(refs, fmt.Sprintf("T8a cancel-then-late-ack warm=%d", warm), cp(c21Step{Do: "send", ID: "m1", Ref: 0}, c21Step{Do: "cancel", ID: "m1"},
+				c21Step{Do: "send", ID: "m2", Ref: 1}, c21Step{Do: "ack", ID: "m1"}, c21Step{Do: "expect-pending", ID: "m2"}, c21Step{Do: "ack", ID: "m2"})...)
+			// duplicate of an earlier ack while the next one (other ref) is outstanding
+			addR(refs, fmt.Sprintf("T8b duplicate-ack warm=%d", warm), cp(c21Step{Do: "send", ID: "m1", Ref: 0}, c21Step{Do: "ack", ID: "m1"},
+				c21Step{Do: "send", ID: "m2", Ref: 1}, c21Step{Do: "ack", ID: "m1"}, c21Step{Do: "expect-pending", ID: "m2"}, c21Step{Do: "ack", ID: "m2"})...)
+			// two sends queued through different refs, acks in order
+			addR(refs, fmt.Sprintf("T8c concurrent-sends warm=%d", warm), cp(c21Step{Do: "send", ID: "m1", Ref: 0}, c21Step{Do: "send", ID: "m2", Ref: 1},
+				c21Step{Do: "send", ID: "m3", Ref: refs - 1}, c21Step{Do: "ack", ID: "m1"}, c21Step{Do: "ack", ID: "m1"}, c21Step{Do: "ack", ID: "m2"}, c21Step{Do: "ack", ID: "m2"}, c21Step{Do: "ack", ID: "m3"})...)
+		}
+	}
+	// T9 application Recv calls whose context is cancelled (before the call / while parked), mixed with normal ones
+	for refs := 1; refs <= 2; refs++ {
+		for _, q := range []uint64{1, 7} {
+			// message pending, Recv with a dead context, then a normal Recv
+			addR(refs, fmt.Sprintf("T9a pending-then-cancelled-recv q=%d", q), op, c21Step{Do: "recvmsg", ID: "r1", Seq: q}, c21Step{Do: "apprecvc", Ref: refs - 1},
+				c21Step{Do: "apprecv", N: 1}, c21Step{Do: "expect-recv", ID: "r1"})
+			// dead-context Recv first (nothing pending), then the message, then another dead one, then a normal one
+			addR(refs, fmt.Sprintf("T9b cancelled-recv-around-delivery q=%d", q), op, c21Step{Do: "apprecvc"}, c21Step{Do: "recvmsg", ID: "r1", Seq: q}, c21Step{Do: "apprecvc", Ref: refs - 1},
+				c21Step{Do: "apprecvc"}, c21Step{Do: "apprecv", N: 1, Ref: refs - 1}, c21Step{Do: "expect-recv", ID: "r1"})
+			// parked Recv cancelled, then delivery, then a dead-context Recv, second message, normal Recv
+			addR(refs, fmt.Sprintf("T9c parked-recv-cancelled q=%d", q), op, c21Step{Do: "apprecv", N: 1}, c21Step{Do: "cancelrecv", N: 0}, c21Step{Do: "recvmsg", ID: "r1", Seq: q},
+				c21Step{Do: "apprecvc", Ref: refs - 1}, c21Step{Do: "recvmsg", ID: "r2", Seq: q + 1}, c21Step{Do: "apprecv", N: 2}, c21Step{Do: "expect-recv", ID: "r2"})
+		}
+	}
 	// PRNG scripts over the same alphabet
 	rng := r.Rand("c21-scripted")
-	for i, n := 0, r.N(150, 5000); i < n; i++ {
+	for i, n := 0, r.N(200, 5000); i < n; i++ {
 		st := []c21Step{op}
-		ns, nr := 0, 0
+		ns, nr, na := 0, 0, 0
 		q := uint64(rng.IntN(3))
+		refs := []int{1, 2, 2, 3}[rng.IntN(4)]
 		for j, m := 0, 6+rng.IntN(8); j < m; j++ {
-			switch x := rng.IntN(12); {
+			switch x := rng.IntN(14); {
 			case x < 3:
-				st = append(st, c21Step{Do: "send", ID: fmt.Sprintf("s%d", ns)})
+				st = append(st, c21Step{Do: "send", ID: fmt.Sprintf("s%d", ns), Ref: rng.IntN(refs)})
 				ns++
+			case x == 12:
+				st = append(st, c21Step{Do: "apprecvc", Ref: rng.IntN(refs)})
+				na++
+			case x == 13 && na > 0:
+				st = append(st, c21Step{Do: "cancelrecv", N: rng.IntN(na)})
 			case x < 5 && ns > 0:
 				st = append(st, c21Step{Do: "ack", ID: fmt.Sprintf("s%d", rng.IntN(ns)), Delta: []int64{0, 0, 0, -1, 1, 2}[rng.IntN(6)]})
 			case x == 5 && ns > 0:
@@ -153,7 +205,8 @@ func genC21Scripts(r *vf.Run) []c21Script {
 				st = append(st, c21Step{Do: "recvmsg", ID: fmt.Sprintf("r%d", nr), Seq: q})
 				nr++
 			case x == 7:
-				st = append(st, c21Step{Do: "apprecv", N: 1 + rng.IntN(2)})
+				st = append(st, c21Step{Do: "apprecv", N: 1 + rng.IntN(2), Ref: rng.IntN(refs)})
+				na++
 			case x == 8:
 				st = append(st, c21Step{Do: "clear", Seq: q + uint64(rng.IntN(3))})
 			case x == 9:
@@ -161,11 +214,11 @@ func genC21Scripts(r *vf.Run) []c21Script {
 			case x == 10:
 				st = append(st, c21Step{Do: "ackabs", Seq: uint64(rng.IntN(ns + 3))})
 			default:
-				st = append(st, c21Step{Do: "send", ID: fmt.Sprintf("s%d", ns)})
+				st = append(st, c21Step{Do: "send", ID: fmt.Sprintf("s%d", ns), Ref: rng.IntN(refs)})
 				ns++
 			}
 		}
-		out = append(out, c21Script{fmt.Sprintf("PRNG %d", i), st})
+		out = append(out, c21Script{Name: fmt.Sprintf("PRNG %d refs=%d", i, refs), Steps: st, Refs: refs})
 	}
 	return out
 }
@@ -186,13 +239,22 @@ func runC21Scripted(r *vf.Run, idx int, sc c21Script, pool []*keys.Identity, b *
 		r.Inconclusive("NewClient: " + err.Error())
 		return
 	}
-	ref := cl.AddPeerRef(p.String())
+	nrefs := sc.Refs
+	if nrefs < 1 {
+		nrefs = 1
+	}
+	refs := make([]*signaling_client.ClientPeerRef, nrefs)
+	for k := range refs {
+		refs[k] = cl.AddPeerRef(p.String()) // same remote peer: one shared session
+	}
 	var clock atomic.Int64
 	app := g8sig.NewApp("X", &clock)
 	defer func() {
 		cancel()
 		app.Wait()
-		ref.Release()
+		for _, rf := range refs {
+			rf.Release()
+		}
 	}()
 
 	epoch := uint64(0)
@@ -200,6 +262,7 @@ func runC21Scripted(r *vf.Run, idx int, sc c21Script, pool []*keys.Identity, b *
 	sends := map[string]*g8sig.SendOp{}
 	cancelled := map[string]bool{}
 	validAcks := map[uint64]int{}    // acks pushed for a seq whose SendMsg the relay had seen
+	ackedFor := map[string]int{}     // payload id -> acks the script pushed ON BEHALF OF that message (the partner "received" it)
 	delivered := map[uint64]string{} // q -> payload delivered with RecvMsg
 	wrongDelivered := 0              // wrong acks / clears delivered while something was outstanding
 	okSends := 0
@@ -237,6 +300,11 @@ func runC21Scripted(r *vf.Run, idx int, sc c21Script, pool []*keys.Identity, b *
 			if validAcks[so.Seqno] == 0 {
 				r.Violation("scripted/send-ok-without-matching-ack",
 					fmt.Sprintf("Send(%s) (message seqno %d) returned ok although the relay never pushed AckMsg(%d) after seeing that message: an ack naming another seqno completed it", id, so.Seqno, so.Seqno), witness(step))
+				return false
+			}
+			if ackedFor[id] == 0 {
+				r.Violation("scripted/send-ok-by-ack-of-another-message",
+					fmt.Sprintf("Send(%s) (message seqno %d, ref %d) returned ok although every ack the relay pushed was the acknowledgement of ANOTHER message (the partner never received %s): two messages of the session were named by one seqno", id, so.Seqno, so.Ref, id), witness(step))
 				return false
 			}
 		}
@@ -320,7 +388,10 @@ func runC21Scripted(r *vf.Run, idx int, sc c21Script, pool []*keys.Identity, b *
 			s.Push(g8sig.Opened(epoch))
 		case "send":
 			if _, dup := sends[st.ID]; !dup {
-				sends[st.ID] = app.Send(ctx, ref, "P", st.ID)
+				sends[st.ID] = app.SendRef(ctx, refs[st.Ref%nrefs], st.Ref%nrefs, "P", st.ID)
+				if st.Ref%nrefs > 0 {
+					r.Count("scripted_sends_via_second_or_third_ref", 1)
+				}
 			}
 		case "cancel":
 			if op, ok := sends[st.ID]; ok {
@@ -344,6 +415,17 @@ func runC21Scripted(r *vf.Run, idx int, sc c21Script, pool []*keys.Identity, b *
 			}
 			if seen {
 				validAcks[seq]++
+				if st.Do == "ack" && st.Delta == 0 {
+					// the script acknowledges THIS message on behalf of the partner
+					ackedFor[st.ID]++
+				} else {
+					// an ack chosen by number: it stands for every message the client named so
+					for _, rq := range relay.Reqs() {
+						if rq.Kind == "send" && rq.Seq == seq {
+							ackedFor[rq.Data]++
+						}
+					}
+				}
 			} else if outstanding() {
 				wrongDelivered++
 				r.Count("scripted_wrong_acks_delivered_while_outstanding", 1)
@@ -362,7 +444,23 @@ func runC21Scripted(r *vf.Run, idx int, sc c21Script, pool []*keys.Identity, b *
 			}
 			s.Push(g8sig.ClearMsg(st.Seq))
 		case "apprecv":
-			app.RecvLoop(ctx, ref, "P", st.N)
+			app.RecvLoopRef(ctx, refs[st.Ref%nrefs], st.Ref%nrefs, "P", st.N)
+		case "apprecvc":
+			app.RecvOnce(ctx, refs[st.Ref%nrefs], st.Ref%nrefs, "P", true)
+			r.Count("scripted_recv_with_cancelled_ctx", 1)
+		case "cancelrecv":
+			if app.CancelRecv(st.N) {
+				r.Count("scripted_recv_cancelled", 1)
+			}
+		case "expect-pending":
+			if op, ok := sends[st.ID]; ok {
+				if so := app.Snapshot(op); so.Done && so.OK {
+					r.Violation("scripted/send-ok-before-its-ack", fmt.Sprintf("Send(%s) returned ok at a quiescent point at which the relay had not yet acknowledged that message", st.ID), witness(step))
+					r.Case(sig, true)
+					return
+				}
+				r.Count("scripted_expected_pending_ok", 1)
+			}
 		case "expect-recv":
 			if got, _ := app.Received(st.ID); !got {
 				r.Violation("scripted/delivered-message-lost", fmt.Sprintf("message %q was delivered, never cleared by name and no re-open intervened, the application's Recv is pending, the system is quiescent - but Recv did not return it (a clear / ack naming another message affected it)", st.ID), witness(step))
@@ -372,7 +470,18 @@ func runC21Scripted(r *vf.Run, idx int, sc c21Script, pool []*keys.Identity, b *
 			r.Count("scripted_expected_recv_ok", 1)
 		}
 	}
-	r.Case(sig, okSends > 0 || wrongDelivered > 0)
+	preOnPending := 0 // dead-context Recv calls that found a message (the interesting half of that class)
+	for _, ro := range app.Recvs() {
+		if ro.Pre && ro.Done {
+			if ro.Err == "" {
+				preOnPending++
+				r.Count("scripted_recv_with_cancelled_ctx_returned_message", 1)
+			} else {
+				r.Count("scripted_recv_with_cancelled_ctx_returned_error", 1)
+			}
+		}
+	}
+	r.Case(sig, okSends > 0 || wrongDelivered > 0 || preOnPending > 0)
 	r.Count("scripted_cases", 1)
 	r.Count("scripted_sends_ok", okSends)
 	r.Distinct("scripted_request_traces", fmt.Sprint(relay.Reqs()))
@@ -385,20 +494,25 @@ func runC21Scripted(r *vf.Run, idx int, sc c21Script, pool []*keys.Identity, b *
 // Part (i): Harness B
 
 type c21Op struct {
-	Op   string // send | cancel | recv | kill | rule | release | q
-	A, B int    // peers (send: A->B; recv: A receives from B; kill: A's stream towards B)
+	Op   string // send | cancel | recv | recvc | cancelrecv | kill | rule | release | q
+	A, B int    // peers (send: A->B; recv / recvc: A receives from B; kill: A's stream towards B; cancelrecv: A's N-th receive activity)
 	N    int
+	Ref  int // send / recv / recvc: which of A's ClientPeerRefs to B is used (taken modulo the program's Refs)
 	Rule g8sig.HBRule
 }
 
 func (o c21Op) String() string {
 	switch o.Op {
 	case "send":
-		return fmt.Sprintf("send(%d>%d)", o.A, o.B)
+		return fmt.Sprintf("send(%d>%d r%d)", o.A, o.B, o.Ref)
 	case "cancel":
 		return fmt.Sprintf("cancel(%d)", o.N)
 	case "recv":
-		return fmt.Sprintf("recv(%d<%d x%d)", o.A, o.B, o.N)
+		return fmt.Sprintf("recv(%d<%d r%d x%d)", o.A, o.B, o.Ref, o.N)
+	case "recvc":
+		return fmt.Sprintf("recv-ctx-cancelled(%d<%d r%d)", o.A, o.B, o.Ref)
+	case "cancelrecv":
+		return fmt.Sprintf("cancelrecv(%d #%d)", o.A, o.N)
 	case "kill":
 		return fmt.Sprintf("kill(%d>%d)", o.A, o.B)
 	case "rule":
@@ -409,6 +523,7 @@ func (o c21Op) String() string {
 
 type c21Prog struct {
 	Peers int
+	Refs  int // ClientPeerRefs every client holds per remote peer (AddPeerRef called Refs times: one shared session)
 	Ops   []c21Op
 }
 
@@ -416,27 +531,58 @@ var peerNames = []string{"A", "B", "C"}
 
 func genC21Programs(r *vf.Run) []c21Prog {
 	rng := r.Rand("c21-harnessB")
-	n := r.N(200, 8000)
+	n := r.N(260, 8000)
 	var out []c21Prog
 	q := c21Op{Op: "q"}
 	for i := 0; i < n; i++ {
 		peers := 2 + rng.IntN(2)
+		refs := []int{1, 2, 2, 3}[rng.IntN(4)]
 		var ops []c21Op
 		if i%2 == 0 {
-			// directed prefixes
+			// directed prefixes; the k-th send of a prefix goes through ref k (mod refs)
 			a := rng.IntN(peers)
 			bb := (a + 1 + rng.IntN(peers-1)) % peers
-			switch rng.IntN(4) {
+			snd := func(k int) c21Op { return c21Op{Op: "send", A: a, B: bb, Ref: k} }
+			rcv := func(n int) c21Op { return c21Op{Op: "recv", A: bb, B: a, N: n, Ref: rng.IntN(refs)} }
+			switch rng.IntN(9) {
 			case 0: // late duplicate ack while the next message waits for a late receiver
 				ops = append(ops, c21Op{Op: "rule", Rule: g8sig.HBRule{Owner: peerNames[a], Dir: "s2c", Kind: "ack", Nth: 0, Action: "dup-late"}},
-					c21Op{Op: "recv", A: bb, B: a, N: 1}, c21Op{Op: "send", A: a, B: bb}, q, c21Op{Op: "send", A: a, B: bb}, q, c21Op{Op: "release"}, q)
+					rcv(1), snd(0), q, snd(1), q, c21Op{Op: "release"}, q)
 			case 1: // cancel then next send, receiver late
-				ops = append(ops, c21Op{Op: "send", A: a, B: bb}, q, c21Op{Op: "cancel", N: 0}, c21Op{Op: "send", A: a, B: bb}, q, c21Op{Op: "recv", A: bb, B: a, N: 1}, q)
+				ops = append(ops, snd(0), q, c21Op{Op: "cancel", N: 0}, snd(1), q, rcv(1), q)
 			case 2: // kill the receiver's stream between receive and ack
 				ops = append(ops, c21Op{Op: "rule", Rule: g8sig.HBRule{Owner: peerNames[bb], Dir: "c2s", Kind: "ack", Nth: 0, Action: "stall"}},
-					c21Op{Op: "recv", A: bb, B: a, N: 2}, c21Op{Op: "send", A: a, B: bb}, q, c21Op{Op: "kill", A: bb, B: a}, q, c21Op{Op: "release"}, q)
+					rcv(2), snd(0), q, c21Op{Op: "kill", A: bb, B: a}, q, c21Op{Op: "release"}, q)
 			case 3: // late receiver only
-				ops = append(ops, c21Op{Op: "send", A: a, B: bb}, c21Op{Op: "send", A: bb, B: a}, q, c21Op{Op: "recv", A: bb, B: a, N: 1}, q)
+				ops = append(ops, snd(0), c21Op{Op: "send", A: bb, B: a}, q, rcv(1), q)
+			case 4: // received and acked, but the ack is slow; the caller gives up; the next message (other ref) goes out before the old ack arrives
+				ops = append(ops, c21Op{Op: "rule", Rule: g8sig.HBRule{Owner: peerNames[a], Dir: "s2c", Kind: "ack", Nth: 0, Action: "stall"}},
+					rcv(1), snd(0), q, c21Op{Op: "cancel", N: 0}, q, snd(1), q, c21Op{Op: "release"}, q)
+			case 5: // k warm-up exchanges through each ref, then case 0 / 4 (equal per-ref histories)
+				for k := 0; k < refs; k++ {
+					ops = append(ops, rcv(1), snd(k), q)
+				}
+				ops = append(ops, c21Op{Op: "rule", Rule: g8sig.HBRule{Owner: peerNames[a], Dir: "s2c", Kind: "ack", Nth: 0, Action: []string{"dup-late", "stall"}[rng.IntN(2)]}},
+					rcv(1), snd(0), q, c21Op{Op: "cancel", N: refs}, q, snd(1), q, c21Op{Op: "release"}, q)
+			case 6: // message pending in the receiver's client, then a Recv whose context is already cancelled
+				ops = append(ops, snd(0), q, c21Op{Op: "recvc", A: bb, B: a, Ref: rng.IntN(refs)}, q)
+				if rng.IntN(2) == 0 {
+					ops = append(ops, rcv(1), q)
+				}
+			case 7: // Recv parked, its context is cancelled while the message arrives
+				ops = append(ops, c21Op{Op: "rule", Rule: g8sig.HBRule{Owner: peerNames[bb], Dir: "s2c", Kind: "recv", Nth: 0, Action: "stall"}},
+					rcv(1), snd(0), q)
+				if rng.IntN(2) == 0 {
+					ops = append(ops, c21Op{Op: "release"}, c21Op{Op: "cancelrecv", A: bb, N: 0}, q)
+				} else {
+					ops = append(ops, c21Op{Op: "cancelrecv", A: bb, N: 0}, c21Op{Op: "release"}, q)
+				}
+				if rng.IntN(2) == 0 {
+					ops = append(ops, rcv(1), q)
+				}
+			case 8: // cancelled Recv calls interleaved with normal ones
+				ops = append(ops, c21Op{Op: "recvc", A: bb, B: a, Ref: rng.IntN(refs)}, snd(0), q,
+					c21Op{Op: "recvc", A: bb, B: a, Ref: rng.IntN(refs)}, q, snd(1), c21Op{Op: "recvc", A: bb, B: a, Ref: rng.IntN(refs)}, rcv(1), q)
 			}
 		}
 		nsend := 0
@@ -448,12 +594,12 @@ func genC21Programs(r *vf.Run) []c21Prog {
 		for j, m := 0, 4+rng.IntN(8); j < m; j++ {
 			a := rng.IntN(peers)
 			bb := (a + 1 + rng.IntN(peers-1)) % peers
-			switch x := rng.IntN(14); {
-			case x < 4 && nsend < 6:
-				ops = append(ops, c21Op{Op: "send", A: a, B: bb})
+			switch x := rng.IntN(16); {
+			case x < 4 && nsend < 8:
+				ops = append(ops, c21Op{Op: "send", A: a, B: bb, Ref: rng.IntN(refs)})
 				nsend++
 			case x < 7:
-				ops = append(ops, c21Op{Op: "recv", A: a, B: bb, N: 1 + rng.IntN(2)})
+				ops = append(ops, c21Op{Op: "recv", A: a, B: bb, N: 1 + rng.IntN(2), Ref: rng.IntN(refs)})
 			case x == 7 && nsend > 0:
 				ops = append(ops, c21Op{Op: "cancel", N: rng.IntN(nsend)})
 			case x == 8:
@@ -468,12 +614,16 @@ func genC21Programs(r *vf.Run) []c21Prog {
 					Action: []string{"drop", "dup", "dup-late", "stall"}[rng.IntN(4)]}})
 			case x == 10:
 				ops = append(ops, c21Op{Op: "release"})
+			case x == 14:
+				ops = append(ops, c21Op{Op: "recvc", A: a, B: bb, Ref: rng.IntN(refs)})
+			case x == 15:
+				ops = append(ops, c21Op{Op: "cancelrecv", A: a, N: rng.IntN(3)})
 			default:
 				ops = append(ops, q)
 			}
 		}
 		ops = append(ops, q, c21Op{Op: "release"}, q)
-		out = append(out, c21Prog{Peers: peers, Ops: ops})
+		out = append(out, c21Prog{Peers: peers, Refs: refs, Ops: ops})
 	}
 	return out
 }
@@ -483,7 +633,7 @@ func runC21B(r *vf.Run, idx int, pg c21Prog, pool []*keys.Identity, b *g8sig.Bat
 	for _, o := range pg.Ops {
 		names = append(names, o.String())
 	}
-	sig := fmt.Sprintf("harnessB peers=%d: %s", pg.Peers, strings.Join(names, " "))
+	sig := fmt.Sprintf("harnessB peers=%d refs=%d: %s", pg.Peers, pg.Refs, strings.Join(names, " "))
 	r.Begin(fmt.Sprintf("C21 harness-B program %d: %s", idx, sig))
 	ctx, cancel := context.WithCancel(context.Background())
 	hb := g8sig.NewHB()
@@ -491,9 +641,11 @@ func runC21B(r *vf.Run, idx int, pg c21Prog, pool []*keys.Identity, b *g8sig.Bat
 	ids := make([]*keys.Identity, pg.Peers)
 	apps := make([]*g8sig.App, pg.Peers)
 	clients := make([]*signaling_client.Client, pg.Peers)
-	refs := map[[2]int]*signaling_client.ClientPeerRef{}
+	refs := map[[3]int]*signaling_client.ClientPeerRef{} // (owner, remote, k): the k-th reference owner holds to remote
+	nameOf := map[string]string{}
 	for i := 0; i < pg.Peers; i++ {
 		ids[i] = pool[(idx+i)%len(pool)]
+		nameOf[ids[i].String()] = peerNames[i]
 		apps[i] = g8sig.NewApp(peerNames[i], &clock)
 		c, err := g8sig.NewClient(ctx, ids[i], hb.ClientFor(ids[i], peerNames[i]))
 		if err != nil {
@@ -506,7 +658,9 @@ func runC21B(r *vf.Run, idx int, pg c21Prog, pool []*keys.Identity, b *g8sig.Bat
 	for i := 0; i < pg.Peers; i++ {
 		for j := 0; j < pg.Peers; j++ {
 			if i != j {
-				refs[[2]int{i, j}] = clients[i].AddPeerRef(ids[j].String())
+				for k := 0; k < pg.Refs; k++ {
+					refs[[3]int{i, j, k}] = clients[i].AddPeerRef(ids[j].String())
+				}
 				hb.Expect(peerNames[i], ids[j].String(), true)
 			}
 		}
@@ -545,16 +699,29 @@ func runC21B(r *vf.Run, idx int, pg c21Prog, pool []*keys.Identity, b *g8sig.Bat
 		case "send":
 			id := fmt.Sprintf("c21-%d-%s>%s-%d", idx, peerNames[o.A], peerNames[o.B], len(sends))
 			sentTo[id] = [2]int{o.A, o.B}
-			sends = append(sends, &sendRec{o.A, o.B, id, apps[o.A].Send(ctx, refs[[2]int{o.A, o.B}], peerNames[o.B], id)})
+			k := o.Ref % pg.Refs
+			sends = append(sends, &sendRec{o.A, o.B, id, apps[o.A].SendRef(ctx, refs[[3]int{o.A, o.B, k}], k, peerNames[o.B], id)})
 			r.Count("harnessB_op_send", 1)
+			if k > 0 {
+				r.Count("harnessB_op_send_via_second_or_third_ref", 1)
+			}
 		case "cancel":
 			if o.N < len(sends) {
 				sends[o.N].op.Cancel()
 				r.Count("harnessB_op_cancel", 1)
 			}
 		case "recv":
-			apps[o.A].RecvLoop(ctx, refs[[2]int{o.A, o.B}], peerNames[o.B], o.N)
+			k := o.Ref % pg.Refs
+			apps[o.A].RecvLoopRef(ctx, refs[[3]int{o.A, o.B, k}], k, peerNames[o.B], o.N)
 			r.Count("harnessB_op_recv_calls", o.N)
+		case "recvc":
+			k := o.Ref % pg.Refs
+			apps[o.A].RecvOnce(ctx, refs[[3]int{o.A, o.B, k}], k, peerNames[o.B], true)
+			r.Count("harnessB_op_recv_with_cancelled_ctx", 1)
+		case "cancelrecv":
+			if apps[o.A].CancelRecv(o.N) {
+				r.Count("harnessB_op_cancel_recv", 1)
+			}
 		case "kill":
 			if cn := hb.Latest(peerNames[o.A], ids[o.B].String()); cn != nil {
 				hb.Kill(cn)
@@ -625,8 +792,44 @@ func runC21B(r *vf.Run, idx int, pg c21Prog, pool []*keys.Identity, b *g8sig.Bat
 			r.Count("harnessB_recv_returns", 1)
 		}
 	}
+	// a Recv that returned an error has NOT handed a message to the application:
+	// at this quiescent point every AckMsg a client emitted towards a partner must
+	// be covered by a SUCCESSFUL Recv return of a message with that seqno from that
+	// partner (the client acks only what its application was given)
+	okRecv := map[string]int{}
+	for _, a := range apps {
+		for _, ro := range a.Recvs() {
+			switch {
+			case ro.Done && ro.Err == "":
+				okRecv[fmt.Sprintf("%s<%s#%d", ro.Peer, ro.From, ro.Msg.GetSeqno())]++
+			case ro.Done:
+				r.Count("harnessB_recv_returned_error", 1)
+				if ro.Pre {
+					r.Count("harnessB_recv_with_cancelled_ctx_returned_error", 1)
+				}
+			}
+			if ro.Done && ro.Err == "" && ro.Pre {
+				r.Count("harnessB_recv_with_cancelled_ctx_returned_message", 1)
+			}
+		}
+	}
+	emitted := map[string]int{}
+	for _, ak := range hb.ClientAcks() {
+		k := fmt.Sprintf("%s<%s#%d", ak.Owner, nameOf[ak.Target], ak.Seq)
+		emitted[k]++
+		r.Count("harnessB_client_acks_checked", 1)
+		if emitted[k] > okRecv[k] {
+			r.Violation("harnessB/acked-without-successful-recv",
+				fmt.Sprintf("%s's client emitted AckMsg(#%d) towards %s %d time(s), but only %d Recv call(s) of its application returned a message with that seqno from that peer (a Recv that returns an error has handed nothing over)", ak.Owner, ak.Seq, nameOf[ak.Target], emitted[k], okRecv[k]), witness())
+			r.Case(sig, true)
+			return
+		}
+	}
 	r.Case(sig, okCount > 0)
 	r.Count("harnessB_cases", 1)
+	if pg.Refs > 1 {
+		r.Count("harnessB_cases_with_several_refs_per_peer", 1)
+	}
 	r.Count("harnessB_sends_ok", okCount)
 	r.Count("harnessB_crossings", ncross)
 	r.Distinct("harnessB_crossing_orders", strings.Join(order, ";"))
